@@ -106,7 +106,7 @@ def run(outdir, par):
         if name in done:
             return done[name]
         env = dict(os.environ, MUTANT_REQUIRE_SUITE="1", MUTANT_CAP="900")
-        p = subprocess.run(["/verif/scripts/mutant_iso.sh", os.path.join(outdir, name, "patch.diff")] + props.split(), capture_output=True, text=True, env=env)
+        p = subprocess.run([os.path.join(os.environ.get("VERIF_ROOT", "/verif"), "scripts/mutant_iso.sh"), os.path.join(outdir, name, "patch.diff")] + props.split(), capture_output=True, text=True, env=env)
         o = p.stdout + p.stderr
         if "repository suite: PASS" not in o:
             st = "suite-rejects" if "repository suite:" in o else "no-build"
